@@ -165,6 +165,32 @@ def op_ser(cmd):
     return {"st": "ok", "hex": b.hex(), "back": jval(t, to_value(t, back)) if back is not None else None}
 
 
+def op_consts(cmd):
+    """C05: exported metadata of a generated class."""
+    t = MODELS[cmd["type"]]
+    cls = ns.get_class(t)
+    out = {"EXTENT": getattr(cls, "_EXTENT_BYTES_", None), "PORT": getattr(cls, "_FIXED_PORT_ID_", None),
+           "get_extent_bytes": ns.get_extent_bytes(cls), "get_fixed_port_id": ns.get_fixed_port_id(cls), "consts": {}}
+    for c in M.inner(t).constants:
+        for n in (c.name, c.name + "_"):
+            if hasattr(cls, n):
+                v = getattr(cls, n)
+                if isinstance(v, bool):
+                    out["consts"][c.name] = ["bool", bool(v)]
+                elif isinstance(v, int):
+                    out["consts"][c.name] = ["int", int(v)]
+                elif isinstance(v, float):
+                    out["consts"][c.name] = ["f64", "%016x" % struct.unpack("<Q", struct.pack("<d", v))[0]]
+                else:
+                    out["consts"][c.name] = ["other", repr(v)[:60]]
+                break
+        else:
+            out["consts"][c.name] = ["missing", None]
+    m = ns.get_model(cls)
+    out["model_name"] = str(m)
+    return {"st": "ok", "info": out}
+
+
 def main():
     global ns, np
     hdr = json.loads(sys.stdin.readline())
@@ -183,6 +209,8 @@ def main():
                 r = op_des(cmd)
             elif cmd["op"] == "ser":
                 r = op_ser(cmd)
+            elif cmd["op"] == "consts":
+                r = op_consts(cmd)
             elif cmd["op"] == "c18":
                 from vlib import pychild_c18
                 r = pychild_c18.run(cmd, sys.modules[__name__])
